@@ -30,6 +30,7 @@ extern int opus_verif_encoder_peek(const OpusEncoder *st, int field);
 
 #define MAXCH 256
 #define NTONE 13
+static double g_amp_last = 0.25;
 static const double TONE_HZ[NTONE] = {300, 500, 700, 900, 1100, 1300, 1500, 1700, 1900, 2100, 2300, 2500, 100};
 
 /* ---------------------------------------------------------------- small helpers */
@@ -154,7 +155,7 @@ typedef struct {
    OpusMSDecoder *md[3];
    OpusDecoder **sd[3];            /* [fmt][stream] */
    /* tone statistics per decoded channel (slot) from the float stand-alone outputs */
-   double *tre, *tim; long tpos; long tskip; long tcount;
+   double *tre, *tim; long *tnum; long tpos; long tskip; long tcount;
    int minc;                       /* lowest TOC configuration number of any sub-packet decoded so far (32: none) */
 } rig_t;
 
@@ -174,6 +175,7 @@ static int rig_open(rig_t *g, int fs, int ch, int S, int C, const unsigned char 
    }
    g->tre = (double *)calloc((size_t)(S + C) * NTONE, sizeof(double));
    g->tim = (double *)calloc((size_t)(S + C) * NTONE, sizeof(double));
+   g->tnum = (long *)calloc((size_t)(S + C), sizeof(long));
    return 0;
 }
 
@@ -184,7 +186,7 @@ static void rig_close(rig_t *g)
       if (g->md[f]) opus_multistream_decoder_destroy(g->md[f]);
       if (g->sd[f]) { for (s = 0; s < g->S; s++) if (g->sd[f][s]) opus_decoder_destroy(g->sd[f][s]); free(g->sd[f]); }
    }
-   free(g->tre); free(g->tim);
+   free(g->tre); free(g->tim); free(g->tnum);
 }
 
 static const size_t SSZ[3] = {sizeof(opus_int16), sizeof(opus_int32), sizeof(float)};
@@ -235,12 +237,25 @@ static void tone_feed(rig_t *g, int slot, const float *x, int stride, int n, lon
       long p = pos0 + i; double v;
       if (p < g->tskip) continue;
       v = x[(size_t)i * stride];
+      g->tnum[slot]++;
       for (t = 0; t < NTONE; t++) {
          double ph = 2 * M_PI * TONE_HZ[t] * (double)p / g->fs;
          g->tre[slot * NTONE + t] += v * cos(ph);
          g->tim[slot * NTONE + t] += v * sin(ph);
       }
    }
+}
+
+/* level of the strongest tone relative to the amplitude the generator used, in centi-dB: a sinusoid of amplitude A
+   correlated over n samples gives |X| = A n / 2 */
+static int tone_level(const double *re, const double *im, int best, long n)
+{
+   double e = re[best] * re[best] + im[best] * im[best], a;
+   if (n <= 0 || e <= 0) return -99999;
+   a = 2.0 * sqrt(e) / (double)n;
+   a = 2000.0 * log10(a / g_amp_last);
+   if (a < -99999) a = -99999;
+   return (int)floor(a);
 }
 
 static void tone_result(const double *re, const double *im, int *best, int *margin_cdb)
@@ -409,13 +424,13 @@ static int run_x(char *line)
    unsigned char map[MAXCH + 8]; int ct[MAXCH + 8];
    OpusMSEncoder *me = NULL; OpusProjectionEncoder *pe = NULL; OpusProjectionDecoder *pd[3] = {NULL, NULL, NULL};
    rig_t g; float *in; opus_int16 *in16; opus_int32 *in24; hx_buf out;
-   double *pre = NULL, *pim = NULL; long ppos = 0;
+   double *pre = NULL, *pim = NULL; long ppos = 0, pnum = 0; opus_int32 pgain = 0;
    if (!bar) return -1;
    *bar = 0;
    if (sscanf(line, "X %15s %d %d %d %d %d %d %d %d %d %d %lu", kind, &fs, &app, &br, &vbr, &frq, &maxb, &nfr, &loss, &fmt, &cx, &seed) != 12) return -1;
    na = read_ints(bar + 1, a, MAXCH + 8);
    memset(map, 0, sizeof map);
-   g_amp = fmt >= 10 ? 1.4 : 0.25; fmt %= 10;      /* fmt 10..12: the same formats, loud signal */
+   g_amp = fmt >= 10 ? 1.4 : 0.25; fmt %= 10; g_amp_last = g_amp;      /* fmt 10..12: the same formats, loud signal */
    if (!strcmp(kind, "enc")) {
       if (na < 4) return -1;
       ch = (int)a[0]; S = (int)a[1]; C = (int)a[2];
@@ -449,6 +464,7 @@ static int run_x(char *line)
    if (pe) {
       opus_int32 sz = 0; unsigned char *mx;
       opus_projection_encoder_ctl(pe, OPUS_PROJECTION_GET_DEMIXING_MATRIX_SIZE(&sz));
+      opus_projection_encoder_ctl(pe, OPUS_PROJECTION_GET_DEMIXING_MATRIX_GAIN(&pgain));
       mx = (unsigned char *)malloc(sz > 0 ? sz : 1);
       opus_projection_encoder_ctl(pe, OPUS_PROJECTION_GET_DEMIXING_MATRIX(mx, sz));
       for (i = 0; i < 3; i++) pd[i] = opus_projection_decoder_create(fs, ch, S, C, mx, sz, &err);
@@ -488,6 +504,7 @@ static int run_x(char *line)
             for (j = 0; j < r; j++) {
                long p = ppos + j;
                if (p < g.tskip) continue;
+               if (f == 2) pnum++;
                for (c = 0; c < ch; c++) {
                   double v = f == 0 ? ((opus_int16 *)po.p)[(size_t)j * ch + c] / 32768.0 : f == 1 ? ((opus_int32 *)po.p)[(size_t)j * ch + c] / 8388608.0
                                                                                          : ((float *)po.p)[(size_t)j * ch + c];
@@ -506,14 +523,19 @@ static int run_x(char *line)
    {
       int nsl = S + C, k, *si = (int *)calloc(nsl, sizeof(int)), *sm = (int *)calloc(nsl, sizeof(int));
       long brc = br > 0 ? br / (S + C) : br;
-      for (k = 0; k < nsl; k++) tone_result(g.tre + (size_t)k * NTONE, g.tim + (size_t)k * NTONE, &si[k], &sm[k]);
+      int *sv = (int *)calloc(nsl, sizeof(int));
+      for (k = 0; k < nsl; k++) {
+         tone_result(g.tre + (size_t)k * NTONE, g.tim + (size_t)k * NTONE, &si[k], &sm[k]);
+         sv[k] = tone_level(g.tre + (size_t)k * NTONE, g.tim + (size_t)k * NTONE, si[k], g.tnum[k]);
+      }
       if (!pe) {
          int mi[MAXCH];
          js_open("tn"); js_str("t", kind); js_int("x", g_exno); js_int("f", fam); js_int("ch", ch); js_int("S", S); js_int("C", C);
          for (i = 0; i < ch; i++) mi[i] = map[i];
          js_key("map"); js_ints(mi, ch); js_int("fs", fs); js_int("br", br); js_int("brc", brc); js_int("vbr", vbr); js_int("fr", fr); js_int("maxb", maxb);
          js_int("ms", (long)(g.tcount > g.tskip ? (g.tcount - g.tskip) : 0) * 1000 / fs); js_int("loss", loss); js_int("minc", g.minc);
-         js_key("ct"); js_ints(ct, ch); js_key("si"); js_ints(si, nsl); js_key("sm"); js_ints(sm, nsl);
+         js_key("ct"); js_ints(ct, ch); js_key("si"); js_ints(si, nsl); js_key("sm"); js_ints(sm, nsl); js_key("sv"); js_ints(sv, nsl);
+         js_int("loud", g_amp > 1.0);
          js_close();
       } else if (pre) {
          int f, c;
@@ -527,9 +549,14 @@ static int run_x(char *line)
          js_key("pg"); putchar('[');
          for (f = 0; f < 3; f++) { if (f) putchar(','); putchar('['); for (c = 0; c < ch; c++) { int b, m; tone_result(pre + ((size_t)f * ch + c) * NTONE, pim + ((size_t)f * ch + c) * NTONE, &b, &m); printf(c ? ",%d" : "%d", m); } putchar(']'); }
          putchar(']');
+         js_key("pv"); putchar('[');
+         for (f = 0; f < 3; f++) { if (f) putchar(','); putchar('['); for (c = 0; c < ch; c++) { int b, m; tone_result(pre + ((size_t)f * ch + c) * NTONE, pim + ((size_t)f * ch + c) * NTONE, &b, &m);
+               printf(c ? ",%d" : "%d", tone_level(pre + ((size_t)f * ch + c) * NTONE, pim + ((size_t)f * ch + c) * NTONE, b, pnum)); } putchar(']'); }
+         putchar(']');
+         js_int("g", pgain); js_int("loud", g_amp > 1.0);
          js_close();
       }
-      free(si); free(sm);
+      free(si); free(sm); free(sv);
    }
    js_open("end"); js_int("x", g_exno); js_close();
    free(in); free(in16); free(in24); hx_buf_free(&out); free(pre); free(pim);
